@@ -118,6 +118,11 @@ Section Spec.
   Definition model (x : input) : output :=
     (http_redirect_message sign (ks x) (typ x) (val x) (rs x) (alg x) (sgn x),
      verify_redirect_signature cert_of verify (own x) (q x) (vc x)).
+
+  (* the pinned snapshot (lenient decoding of the Signature parameter), kept for c15_f1_v0_refuted *)
+  Definition model_v0 (x : input) : output :=
+    (http_redirect_message sign (ks x) (typ x) (val x) (rs x) (alg x) (sgn x),
+     verify_redirect_signature_v0 cert_of verify (own x) (q x) (vc x)).
 End Spec.
 
 Arguments input : clear implicits.
